@@ -12,16 +12,17 @@ PROP = 'C01'
 
 def expected(v, sort):
     """the value the output must evaluate to: dicts in insertion order, or in
-    ascending key order when sorting is requested (keys comparable)"""
+    ascending key order when sorting is requested (keys comparable); the class
+    of every container is kept"""
     if isinstance(v, dict):
         items = list(v.items())
         if sort:
             items = sorted(items, key=lambda kv: kv[0])
-        return {expected(k, sort): expected(x, sort) for k, x in items}
+        return type(v)({expected(k, sort): expected(x, sort) for k, x in items})
     if isinstance(v, list):
-        return [expected(x, sort) for x in v]
+        return type(v)([expected(x, sort) for x in v])
     if isinstance(v, tuple):
-        return tuple(expected(x, sort) for x in v)
+        return type(v)(tuple(expected(x, sort) for x in v))
     if isinstance(v, (set, frozenset)):
         return type(v)(expected(x, sort) for x in v)
     return v
